@@ -48,7 +48,7 @@ CHECKS = {
                     "same-entity slots; operator shapes). Behaviour of the compiled binding is not decided.",
             "note": TB + "; pybind11 trusted"},
     "C05": {"engine": "I", "design_ref": "DESIGN.md section 3 C05",
-            "technique": "static analysis: inventory of id-allocation sites with affine offsets and template slot positions, single-writer/allocator shape, text-reaches-output on every path, bounded abstract execution of the two replay loops over symbolic map entries; role tuple of each allocation inside an overload loop tied to the loop's own element; hand-written gateway spellings compared with _wrapper_name(); the .m emitters and generate_collector_function run on sample declarations: ids passed = ids registered, each branch's id belongs to its overload, each routine checks / unwraps / calls for its overload; pointer-constructor text for virtual x base combinations",
+            "technique": "static analysis: inventory of id-allocation sites with affine offsets and template slot positions, single-writer/allocator shape, text-reaches-output on every path, bounded abstract execution of the two replay loops over symbolic map entries; role tuple of each allocation inside an overload loop tied to the loop's own element; hand-written gateway spellings compared with _wrapper_name(); the .m emitters and generate_collector_function run on sample declarations: ids passed = ids registered, each branch's id belongs to its overload, each routine checks / unwraps / calls for its overload; pointer-constructor text for virtual x base combinations; the .m file and the classdef line evaluated for names of every length around the wrapper's integer constants (I13); a repeated free-function declaration among the samples",
             "text": "Decides the whole numbering protocol by an inductive argument whose premises are checked: single "
                     "writer, allocator shape, every allocated id embedded once as first gateway argument, affine "
                     "offsets (incl. the virtual pair), the two replay loops produce one case per id routed to the "
@@ -56,7 +56,7 @@ CHECKS = {
                     "user names. Correctness of the routine bodies is C06/C11.",
             "note": TB + "; abstract execution models only the statement forms the loops use (else ANALYSIS-ERROR)"},
     "C06": {"engine": "E+F", "design_ref": "DESIGN.md section 3 C06",
-            "technique": "static analysis: path enumeration of per-argument index counters, normal-form comparison of the two MATLAB type-check builders, role table (unwrap start / nargin adjustment / receiver / .m call shape), structural shape of default expansion, marshalling-table priority, enum-context provenance per role, whole-scope enum look-up, pair element selected by output position; both guard builders run on sample parameter lists and compared; routines of a sample run compared with their overloads",
+            "technique": "static analysis: path enumeration of per-argument index counters, normal-form comparison of the two MATLAB type-check builders, role table (unwrap start / nargin adjustment / receiver / .m call shape), structural shape of default expansion, marshalling-table priority, enum-context provenance per role, whole-scope enum look-up, pair element selected by output position; both guard builders run on sample parameter lists and compared; routines of a sample run compared with their overloads; constructors (all-defaulted, defaulted tail, foreign enum) among the evaluated routines; _collector_return run on eight enum/class samples incl. same-named enums of class and namespace (M20); outputs assigned per return shape (M21) and isa class of namespaced parameter types (M22) read off the evaluated .m emitters; truth of program objects follows __len__/__bool__ in the interpreter",
             "text": "Decides that position indexes advance once per argument on every path, that the two MATLAB-side guard "
                     "builders agree, that per role the C++ unwrap offsets, the expected counts and the .m call shapes are "
                     "mutually consistent, that default expansion has the peel-from-the-tail / rebuild-from-backup shape, "
@@ -89,21 +89,21 @@ CHECKS = {
                     "any conforming library' needs a compiler and the library and is not decided.",
             "note": TB},
     "C10": {"engine": "E+F", "design_ref": "DESIGN.md section 3 C10",
-            "technique": "static analysis: guard pairing of preamble fragments, enumerate-from-zero shape, package paths of all sibling sites evaluated by the analyser on sample namespace lists (depth 1 and 3), unconditional concatenation of classdef parts, single MEX-source entry, overload grouping by name, must-definition analysis of per-class scalar state; guards of the free-function file append in wrap_methods (name-independent, dead filters recognised); guards of the deserialize pair; registration-before-fill of namespace lists",
+            "technique": "static analysis: guard pairing of preamble fragments, enumerate-from-zero shape, package paths of all sibling sites evaluated by the analyser on sample namespace lists (depth 1 and 3), unconditional concatenation of classdef parts, single MEX-source entry, overload grouping by name, must-definition analysis of per-class scalar state; guards of the free-function file append in wrap_methods (name-independent, dead filters recognised); guards of the deserialize pair; registration-before-fill of namespace lists; the class file name by evaluation (T19); generate_preamble run on eight sample classes with and without serialization, the five texts read (T20); add_class and a user-defined __eq__ of the declaration classes run on colliding sample pairs (T21)",
             "text": "Decides that collector/clean-up/RTTI fragments are emitted under the right (paired) conditions for "
                     "every registered class, enumerators are numbered from 0 in declared order, all entity kinds "
                     "derive their +package path by one normal form, the classdef always contains its mandatory parts "
                     "and names its base, and exactly one MEX source entry exists. File contents are C05/C06/C11.",
             "note": TB},
     "C11": {"engine": "E+X", "design_ref": "DESIGN.md section 3 C11",
-            "technique": "static analysis: per-routine ownership obligations on constant-folded, tokenised C++ routine templates (create=>register, destroy-once, unload hook, base handle, ownership form of returned handles) + memo-key completeness + clang AST handle protocol of matlab.h + id-role inventory (every id carries its role; holes only as the virtual up-cast slot) + pair element by position; clang AST conversion chains of wrap<T> (helpers expanded in place) checked for lossy steps; pointer-constructor text, guard builders and routines by evaluation; string converter forms",
+            "technique": "static analysis: per-routine ownership obligations on constant-folded, tokenised C++ routine templates (create=>register, destroy-once, unload hook, base handle, ownership form of returned handles) + memo-key completeness + clang AST handle protocol of matlab.h + id-role inventory (every id carries its role; holes only as the virtual up-cast slot) + pair element by position; clang AST conversion chains of wrap<T> (helpers expanded in place) checked for lossy steps; pointer-constructor text, guard builders and routines by evaluation; string converter forms; string converters run by the header interpreter on boundary lengths (H21); the preamble and the class registry by evaluation (H22, H23); isa class of namespaced parameter types (H24)",
             "text": "Decides per-routine ownership obligations (each allocated handle registered and returned, destructor "
                     "erases then deletes once, unload hook before first registration, base handle handed over in the "
                     "right slot, handle protocol in matlab.h read as written). Call histories under MATLAB's lifetime "
                     "rules and exceptions between allocation and registration are not decided.",
             "note": TB + "; clang 14 + /verif/stubs as in C18"},
     "C12": {"engine": "G", "design_ref": "DESIGN.md section 3 C12",
-            "technique": "static analysis: grammar reconstruction + layout classification of terminals/combinators; character-run terminals checked against comment openers; taint from read() to the parse: the text is only concatenated",
+            "technique": "static analysis: grammar reconstruction + layout classification of terminals/combinators; character-run terminals checked against comment openers; taint from read() to the parse: the text is only concatenated; the entry parse call's expression configured with parseWithTabs wherever the grammar copies text verbatim (L8)",
             "text": "Decides the necessary structural conditions for layout/comment independence of parsing: "
                     "comment skipper installed on the parse root and covering the whole grammar, no "
                     "layout-sensitive terminal or combinator outside the documented verbatim zones, single "
@@ -118,7 +118,7 @@ CHECKS = {
                     "parser or instantiator. Does not re-prove output equality under alpha-renaming as a value fact.",
             "note": TB + "; deepcopy yields an independent graph; instantiate_namespace's in/out parameter exempt by name"},
     "C14": {"engine": "F", "design_ref": "DESIGN.md section 3 C14",
-            "technique": "static analysis: effect analysis over the call graph (nondeterminism sources, unordered collections, un-reset accumulators, provenance of write/read paths, whole-file writes, must-definition of per-item state, memo-key completeness); mutable default parameter values traced for in-place modification / escape",
+            "technique": "static analysis: effect analysis over the call graph (nondeterminism sources, unordered collections, un-reset accumulators, provenance of write/read paths, whole-file writes, must-definition of per-item state, memo-key completeness); mutable default parameter values traced for in-place modification / escape; configuration attributes (computed by the constructor from its arguments) never re-bound or mutated by another method (R11); abspath-like calls exempt only where path flow shows the value merely names a file",
             "text": "Decides the effect discipline that makes generation a repeatable function: no "
                     "nondeterministic source or hash-ordered collection reachable, per-file state reset, every "
                     "written path derived from a caller-chosen output location (or <stem>+constant suffix), "
@@ -132,7 +132,7 @@ CHECKS = {
                     "is tested before use. Equivalence with deleting the declaration for all inputs is not re-proved.",
             "note": TB},
     "C16": {"engine": "F+E", "design_ref": "DESIGN.md section 3 C16",
-            "technique": "static analysis: separator provenance of the parsed text, agreement of folded initialiser templates (declaration/definition/call/module variable), CLI option plumbing table with None-reachability, abstract interpretation of the namespace-option normalisation over spelling classes in both scripts, aliasing rule on entry-point parameters, must-pass-through (every normal exit of wrap / wrap_submodule preceded by the write of the generated text), agreement of the cmake command lines with the scripts' declared options and of expected with written file names; initialiser names computed by slice evaluation of wrap / wrap_file / wrap_submodule on sample file lists",
+            "technique": "static analysis: separator provenance of the parsed text, agreement of folded initialiser templates (declaration/definition/call/module variable), CLI option plumbing table with None-reachability, abstract interpretation of the namespace-option normalisation over spelling classes in both scripts, aliasing rule on entry-point parameters, must-pass-through (every normal exit of wrap / wrap_submodule preceded by the write of the generated text), agreement of the cmake command lines with the scripts' declared options and of expected with written file names; initialiser names computed by slice evaluation of wrap / wrap_file / wrap_submodule on sample file lists; the script's source list evaluated on the backward slice of main() for sample --src values, same-file renamings accepted only through path flow (Y3); configuration attributes fixed at construction (Y9)",
             "text": "Decides that file contents are separated before parsing, that the main file and submodules agree on "
                     "initialiser name, signature and module variable, that every CLI option reaches its API keyword "
                     "and a possibly-None option never reaches a membership test, and that both scripts normalise the "
@@ -146,7 +146,7 @@ CHECKS = {
                     "names select the documented member. Exact decoding of the literal for all Unicode is not decided.",
             "note": TB + "; ElementTree find()/text may be None"},
     "C18": {"engine": "X", "design_ref": "DESIGN.md section 3 C18",
-            "technique": "static analysis: clang -fsyntax-only AST (JSON) of matlab.h against declaration-only stubs; writer/reader table agreement, guard-before-use ordering, typed/bounded raw stores, loop-nest shape and loop-header comparison, truth-table comparison of every error guard, argument checks of array-creating and MATLAB-calling functions; conversion chains from the wrapped value to the raw store (implicit and explicit casts, locals, helper parameters) checked for lossy steps; copy loops of wrap / unwrap for vectors and matrices run by an interpreter over the clang AST on sample arrays with symbolic cells",
+            "technique": "static analysis: clang -fsyntax-only AST (JSON) of matlab.h against declaration-only stubs; writer/reader table agreement, guard-before-use ordering, typed/bounded raw stores, loop-nest shape and loop-header comparison, truth-table comparison of every error guard, argument checks of array-creating and MATLAB-calling functions; conversion chains from the wrapped value to the raw store (implicit and explicit casts, locals, helper parameters) checked for lossy steps; copy loops of wrap / unwrap for vectors and matrices run by an interpreter over the clang AST on sample arrays with symbolic cells; unwrap<string>/wrap<string> run by the header interpreter (local buffers with uninitialised bytes, mxGetString's cut and return code, mxArrayToString, std::string from pointer) on lengths next to every constant the function mentions, on char columns/matrices and non-char arrays (K15); checkScalar run on twelve shapes incl. N-d ones (K6)",
             "text": "Decides the structural conditions of loss-free conversion in matlab.h: wrap/unwrap tables "
                     "agree; scalar readers check shape first and read through their own type; raw stores are "
                     "typed and fit the created array (LP64, and ILP32 in the thorough tier); vector/matrix "
